@@ -188,6 +188,24 @@ pub trait ViaRefNo {
 }
 impl<T> ViaRefNo for &RefProbe<T> {}
 
+/// If a message type implements `Default` (the original crate's do not), the default value is
+/// a message like any other: its status byte is a status byte.  Autoref probe.
+pub struct DefaultProbe<T>(pub core::marker::PhantomData<T>);
+pub trait DefYes {
+    fn default_status(&self) -> Option<i64>;
+}
+impl<T: Default + ShortMessage> DefYes for DefaultProbe<T> {
+    fn default_status(&self) -> Option<i64> {
+        Some(T::default().status_byte() as i64)
+    }
+}
+pub trait DefNo {
+    fn default_status(&self) -> Option<i64> {
+        None
+    }
+}
+impl<T> DefNo for &DefaultProbe<T> {}
+
 /// Formatting with `{:?}` into a sink that discards everything: must not panic.
 pub struct NullSink;
 impl core::fmt::Write for NullSink {
@@ -433,6 +451,12 @@ pub fn exec(tag: i64, inp: &[i64]) -> Vec<i64> {
             Some(Ok(b)) => vec![1, b as i64],
             Some(Err(_)) => vec![0, NONE],
         },
+        15 => {
+            // values obtainable through optional trait impls: Default of the two message types
+            let a = (&DefaultProbe::<RawShortMessage>(core::marker::PhantomData)).default_status();
+            let b = (&DefaultProbe::<StructuredShortMessage>(core::marker::PhantomData)).default_status();
+            vec![a.map(|s| (s >= 128) as i64).unwrap_or(1), b.map(|s| (s >= 128) as i64).unwrap_or(1)]
+        }
         14 => with_kind!(inp[0], inp[1], inp[2], inp[3], m => {
             // every way from any implementor to the structured form and back to a raw message;
             // each conversion is its own monitored call
@@ -600,6 +624,7 @@ pub fn gen_c01(tier: Tier, seed: u64, em: &mut Emitter) {
     for &k in &KINDS {
         triples(tier, &mut r, 0, &mut |s, a, b, key| em.emit_k(key, 10, vec![k, s, a, b]));
     }
+    em.emit_k("optional impls", 15, vec![0]);
     // conversions between the representations (to_structured, to_other, from_other, and back)
     for &k in &KINDS {
         triples(tier, &mut r, 128, &mut |s, a, b, key| em.emit_k(&format!("conversions/{}", key), 14, vec![k, s, a, b]));
